@@ -384,7 +384,11 @@ def lookalike_seam(t: int, k: int, s: str) -> str:
     stub = _OutcomeJson(k)
     d = _with_json(stub, lambda: packet.Packet(encoded_packet=str(t) + s))
     o = _OUTCOMES[k]
-    if o is ValueError or isinstance(o, int):      # parser failed / integer-looking (bool is an int in Python)
+    if not stub.seen:
+        # the parser was not consulted for this text (e.g. a fast path): then the text must stay text; that JSON
+        # literals are recognised at all is the job of lookalike_real_parser
+        exp = s
+    elif o is ValueError or isinstance(o, int):    # parser failed / integer-looking (bool is an int in Python)
         exp = s
     else:
         exp = o
@@ -395,8 +399,6 @@ def lookalike_seam(t: int, k: int, s: str) -> str:
     if stub.seen and stub.seen != [s]:
         # if the parser is consulted it must be given exactly the payload text
         return verdict(fail(PROP, 'LOOKALIKE-PARSER-INPUT', 'parser was given %r for payload %r' % (stub.seen, s)))
-    if not stub.seen and exp != s:
-        return verdict(fail(PROP, 'LOOKALIKE-RULE', 'parser not consulted'))
     return verdict('')
 
 
